@@ -770,7 +770,7 @@ impl<'a> Gen<'a> {
                     self.feat("logic-and");
                     let a = self.expr(&T::Bool, scope, d, pre);
                     let b = if self.cfg.logic_rhs_shapes && self.rng.chance(1, 2) {
-                        self.loud_bool_shape()
+                        self.logic_rhs_shape(scope)
                     } else {
                         self.pure_expr(&T::Bool, scope, d)
                     };
@@ -780,7 +780,7 @@ impl<'a> Gen<'a> {
                     self.feat("logic-or");
                     let a = self.expr(&T::Bool, scope, d, pre);
                     let b = if self.cfg.logic_rhs_shapes && self.rng.chance(1, 2) {
-                        self.loud_bool_shape()
+                        self.logic_rhs_shape(scope)
                     } else {
                         self.pure_expr(&T::Bool, scope, d)
                     };
@@ -1140,6 +1140,29 @@ impl<'a> Gen<'a> {
 
     /// a boolean operand that prints when (and only when) it is evaluated, inside a shape that a
     /// shallow purity test may take for trivial
+    /// right operand of `&&` / `||` under `logic_rhs_shapes`: a printing call inside a nearly-trivial shape, or
+    /// (one time in three, when an int32 variable is in scope) a CALL-FREE guard idiom whose guarded operand
+    /// fails when evaluated — `((x - x) != 0 && (7 / (x - x)) > 1)`, `((x - x) == 0 || (n / (x - x)) < 3)`:
+    /// nothing is printed and nothing fails unless the inner right operand is evaluated although its left
+    /// operand decides (a "no calls in it, so it needs no branch" shortcut)
+    fn logic_rhs_shape(&mut self, scope: &Scope) -> String {
+        let ints: Vec<String> = Self::vars_of(scope, &T::I32).into_iter().cloned().collect();
+        if !ints.is_empty() && self.rng.chance(1, 3) {
+            self.feat("logic-rhs-quiet-guard");
+            let x = self.rng.pick(&ints).clone();
+            let n = self.rng.pick(&ints).clone();
+            let zero = format!("({} - {})", x, x);
+            let num = if self.rng.chance(1, 2) { n } else { "7".to_string() };
+            return match self.rng.below(4) {
+                0 => format!("({z} != 0 && ({n} / {z}) > 1)", z = zero, n = num),
+                1 => format!("({z} == 0 || ({n} / {z}) < 3)", z = zero, n = num),
+                2 => format!("(0 < {z} && ({n} + 1) / {z} == {n})", z = zero, n = num),
+                _ => format!("({z} <= 0 || {n} * 2 / {z} != 1)", z = zero, n = num),
+            };
+        }
+        self.loud_bool_shape()
+    }
+
     fn loud_bool_shape(&mut self) -> String {
         self.feat("logic-rhs-shape");
         let tag = self.fresh("rhs");
@@ -1181,6 +1204,17 @@ impl<'a> Gen<'a> {
     fn stmt(&mut self, sc: &mut Scope, depth: usize, s: &mut String) {
         if self.cfg.cov_shapes && self.rng.chance(1, 3) {
             return cov::stmt(self, sc, depth, s);
+        }
+        if self.cfg.logic_rhs_shapes && self.cfg.effects && self.rng.chance(1, 4) {
+            // a `&&` / `||` whose right operand is one of the `logic_rhs_shape`s, shown (expression-level
+            // logical operators are rare in this generator: one statement in four makes the stream dense)
+            self.feat("logic-rhs-stmt");
+            let mut pre = String::new();
+            let a = self.expr(&T::Bool, sc, depth.min(1), &mut pre);
+            let b = self.logic_rhs_shape(sc);
+            let op = if self.rng.chance(1, 2) { "&&" } else { "||" };
+            write!(s, "{}let _ = string_println(bool_to_string(({} {} {}))); ", pre, a, op, b).unwrap();
+            return;
         }
         match self.rng.below(10) {
             0 | 1 if self.cfg.effects => {
